@@ -4,6 +4,10 @@
 //! once the fault was hit the limit is lifted and the worker retries.
 //!
 //! case: (rfault LIMIT EVENTS SIZE)   no file may grow past LIMIT bytes while EVENTS events of SIZE bytes are emitted
+//!       (rfdrop LIMIT EVENTS SIZE)   the same fault, but it strikes the LAST batch: a first event is written and flushed,
+//!                                    the worker goes idle, then the events are emitted and the file set is DROPPED at once
+//!                                    (no flush); the limit is lifted 1.2 s later from another thread. The worker must
+//!                                    still retry the batch it took after the close, and write everything
 //! oracle (the property on the I/O alone; the model prints the constant verdict `ok`):
 //!   rf-flush-false   the flush after the fault was lifted failed
 //!   rf-lost          an event is in no file ("a fault may duplicate an event but never loses one")
@@ -87,15 +91,23 @@ fn run(line: &str) -> String {
     (|| -> Option<String> {
         let s = Sexp::parse(line)?;
         let (tag, a) = s.as_tagged()?;
-        if tag != "rfault" || a.len() != 3 {
+        if (tag != "rfault" && tag != "rfdrop") || a.len() != 3 {
             return None;
         }
+        let at_drop = tag == "rfdrop";
         let (lim, events, size) = (a[0].as_u64()?, a[1].as_usize()?, a[2].as_usize()?);
         if lim < 1000 || lim > 10_000_000 || events == 0 || events > 20_000 || size < 16 || size > 4096 {
             return None;
         }
         let dir = temp_dir();
         let files = emit_file::set_with_writer(dir.join("app.log"), |buf, evt| write!(buf, "{}", evt.msg()), b"\n").spawn();
+        if at_drop {
+            // a first event, written and flushed; then let the worker's idle back-off grow
+            let text = event_text(events, size);
+            emit::Emitter::emit(&files, emit::evt!("{text}"));
+            let _ = emit::Emitter::blocking_flush(&files, Duration::from_secs(10));
+            std::thread::sleep(Duration::from_millis(80));
+        }
         let Some(original) = limit::lower(lim) else {
             drop(files);
             let _ = std::fs::remove_dir_all(&dir);
@@ -104,6 +116,48 @@ fn run(line: &str) -> String {
         for n in 0..events {
             let text = event_text(n, size);
             emit::Emitter::emit(&files, emit::evt!("{text}"));
+        }
+        if at_drop {
+            let mut fails: BTreeSet<String> = BTreeSet::new();
+            std::thread::scope(|sc| {
+                sc.spawn(|| {
+                    std::thread::sleep(Duration::from_millis(1200));
+                    limit::restore(&original);
+                });
+                // dropping the file set closes the channel; the worker drains what is queued (retrying) and ends
+                drop(files);
+            });
+            // the worker thread is detached: give it time to finish its retries
+            let expected: BTreeSet<String> = (0..=events).map(|n| event_text(n, size)).collect();
+            let t0 = Instant::now();
+            let mut found: BTreeSet<String> = BTreeSet::new();
+            while t0.elapsed() < Duration::from_secs(12) {
+                found.clear();
+                if let Ok(rd) = std::fs::read_dir(&dir) {
+                    for e in rd.filter_map(|e| e.ok()) {
+                        let contents = std::fs::read(e.path()).unwrap_or_default();
+                        for rec in contents.split(|b| *b == b'\n') {
+                            let rec = String::from_utf8_lossy(rec).to_string();
+                            if expected.contains(&rec) {
+                                found.insert(rec);
+                            }
+                        }
+                    }
+                }
+                if found.len() == expected.len() {
+                    break;
+                }
+                std::thread::sleep(Duration::from_millis(100));
+            }
+            let _ = std::fs::remove_dir_all(&dir);
+            if found.len() != expected.len() {
+                fails.insert("rf-lost".into());
+            }
+            return Some(if fails.is_empty() {
+                "ok".into()
+            } else {
+                format!("found={}/{}\tFAIL:{}", found.len(), expected.len(), fails.into_iter().collect::<Vec<_>>().join("+"))
+            });
         }
         // wait for the fault: the kernel cuts the crossing write short at exactly the limit
         let t0 = Instant::now();
@@ -159,7 +213,7 @@ fn run(line: &str) -> String {
 }
 
 fn gen(rng: &mut Rng, tier: Tier, n: usize) -> Vec<String> {
-    let mut out = vec!["(rfault 20000 1000 100)".to_string()];
+    let mut out = vec!["(rfault 20000 1000 100)".to_string(), "(rfdrop 3000 60 100)".to_string()];
     let extra = if tier == Tier::Thorough { n.max(12) } else { n.min(2) };
     for _ in 0..extra {
         let size = *rng.pick(&[40usize, 100, 300, 1000]);
